@@ -23,7 +23,8 @@
  *   conn <cid> <sid> <rev> <prehex|->            new connection; pre = bytes already sent by the peer
  *   send <cid> <hex> | sendnp <cid> <hex> | proc <cid> | close <cid> | state
  *   des <key16hex> <hex> | refdes <key16hex> <hex> | encb <pwhex> <32hex> | store <pwhex> | load <filehex>
- *   ext <type>                                   (compatibility test only; not part of the model)
+ *   ext <type> | unext <type>                    application security handler (writes "EXT!" and closes)
+ *   tight <0|1>                                  (un)register the TightVNC file-transfer extension (type 16)
  */
 #include "sess.h"
 #include <openssl/des.h>
@@ -31,6 +32,8 @@
 #include "crypto.h"
 #include <dlfcn.h>
 #include <gcrypt.h>
+
+extern rfbProtocolExtension tightVncFileTransferExtension;   /* tightvnc-filetransfer/rfbtightserver.c */
 
 #define MAXS 8
 #define MAXC 64
@@ -41,6 +44,8 @@ static char *pwlist[MAXS][MAXPW + 1];
 static char *pwfile[MAXS];
 static vh_conn conns[MAXC];
 static int used[MAXC], nscr;
+static long capsbytes[MAXC];     /* TightVNC interaction caps written after ServerInit (content not compared) */
+static int tightreg;
 static char tmpdir[64];
 
 /* ---- deterministic random source for rfbRandomBytes ------------------------------------------ */
@@ -82,12 +87,37 @@ static int need(int st) {
   }
 }
 
+static int has_tight(rfbClientPtr cl) {
+  rfbExtensionData *e;
+  for (e = cl->extensions; e; e = e->next) if (e->extension == &tightVncFileTransferExtension) return 1;
+  return 0;
+}
+
+/* one rfbProcessClientMessage.  For a client that enabled the TightVNC extension the ClientInit step
+   writes ServerInit followed by rfbSendInteractionCaps' capability lists; for view-only clients (or with
+   file transfer disabled) part of those lists is uninitialised stack memory, so only their length is
+   observed (`caps=<n>`), the bytes are dropped here. */
+static void process(int id) {
+  vh_conn *c = &conns[id];
+  int st0 = c->cl->state;
+  size_t n0, silen;
+  vh_drain(c);
+  n0 = c->out.n;
+  rfbProcessClientMessage(c->cl);
+  vh_drain(c);
+  silen = sz_rfbServerInitMsg + strlen(c->cl->screen->desktopName);
+  if (st0 == RFB_INITIALISATION && has_tight(c->cl) && c->out.n > n0 + silen) {
+    capsbytes[id] += (long)(c->out.n - n0 - silen);
+    c->out.n = n0 + silen;
+  }
+}
+
 static void pump(int id) {
   int guard = 0;
   while (isopen(id) && guard++ < 64) {
     int nd = need(conns[id].cl->state);
     if (nd < 0 || vh_srv_pending(conns[id].cl->sock) < nd) break;
-    rfbProcessClientMessage(conns[id].cl);
+    process(id);
   }
 }
 
@@ -98,6 +128,7 @@ static void obs(int id) {
   else printf("c%d %s %s vo=%d out=", id, stname(c->cl->state), isopen(id) ? "open" : "closed",
               c->cl->viewOnly ? 1 : 0);
   vh_puthex(stdout, c->out.p, c->out.n);
+  if (capsbytes[id]) { printf(" caps=%ld", capsbytes[id]); capsbytes[id] = 0; }
   putchar('\n');
   vh_buf_reset(&c->out);
 }
@@ -109,8 +140,9 @@ static void ext_handler(rfbClientPtr cl) {
   rfbWriteExact(cl, "EXT!", 4);
   rfbCloseClient(cl);
 }
-static rfbSecurityHandler extHandlers[4];
-static int nExt;
+#define MAXEXT 8
+static rfbSecurityHandler extHandlers[MAXEXT];
+static int extUsed[MAXEXT];
 
 static void ref_des(const unsigned char key[8], const unsigned char *in, unsigned char *out, size_t n) {
   DES_key_schedule ks; DES_cblock k; size_t i;
@@ -198,7 +230,7 @@ int main(void) {
     } else if (!strcmp(tok[0], "proc") && n == 2) {
       int id = atoi(tok[1]);
       if (!cid_ok(tok[1])) { puts("bad-op"); goto next; }
-      if (isopen(id) && need(conns[id].cl->state) >= 0) rfbProcessClientMessage(conns[id].cl);
+      if (isopen(id) && need(conns[id].cl->state) >= 0) process(id);
       obs(id);
     } else if (!strcmp(tok[0], "close") && n == 2) {
       int id = atoi(tok[1]);
@@ -247,8 +279,11 @@ int main(void) {
       if (l < 0 || memchr(buf, 0, (size_t)l)) { puts("bad-op"); goto next; }
       buf[l] = 0;
       snprintf(path, sizeof path, "%s/store", tmpdir);
-      if (rfbEncryptAndStorePasswd((char *)buf, path) != 0) { puts("store-failed"); goto next; }
-      f = fopen(path, "rb"); r = f ? fread(buf2, 1, 64, f) : 0; if (f) fclose(f);
+      unlink(path);
+      if (rfbEncryptAndStorePasswd((char *)buf, path) != 0) fputs("store-failed ", stdout);
+      f = fopen(path, "rb");
+      if (!f) { puts("nofile"); goto next; }
+      r = fread(buf2, 1, 64, f); fclose(f);
       vh_puthex(stdout, buf2, r); putchar('\n');
     } else if (!strcmp(tok[0], "load") && n == 2) {
       char path[128], *pw; FILE *f;
@@ -261,12 +296,29 @@ int main(void) {
       pw = rfbDecryptPasswdFromFile(path);
       if (!pw) puts("null");
       else { vh_puthex(stdout, (unsigned char *)pw, strlen(pw)); putchar('\n'); free(pw); }
-    } else if (!strcmp(tok[0], "ext") && n == 2 && nExt < 4) {
-      extHandlers[nExt].type = (uint8_t)atoi(tok[1]);
-      extHandlers[nExt].handler = ext_handler;
-      extHandlers[nExt].next = NULL;
-      rfbRegisterSecurityHandler(&extHandlers[nExt]);
-      nExt++;
+    } else if (!strcmp(tok[0], "ext") && n == 2) {
+      int t = atoi(tok[1]), i, slot = -1;
+      for (i = 0; i < MAXEXT; i++) { if (extUsed[i] && extHandlers[i].type == t) slot = -2; }
+      for (i = 0; i < MAXEXT && slot == -1; i++) if (!extUsed[i]) slot = i;
+      if (t < 0 || t > 255 || slot < 0) { puts("bad-op"); goto next; }
+      extHandlers[slot].type = (uint8_t)t;
+      extHandlers[slot].handler = ext_handler;
+      extHandlers[slot].next = NULL;
+      extUsed[slot] = 1;
+      rfbRegisterSecurityHandler(&extHandlers[slot]);
+      puts("ok");
+    } else if (!strcmp(tok[0], "unext") && n == 2) {
+      int t = atoi(tok[1]), i, slot = -1;
+      for (i = 0; i < MAXEXT; i++) if (extUsed[i] && extHandlers[i].type == t) slot = i;
+      if (slot < 0) { puts("bad-op"); goto next; }
+      rfbUnregisterSecurityHandler(&extHandlers[slot]);
+      extUsed[slot] = 0;
+      puts("ok");
+    } else if (!strcmp(tok[0], "tight") && n == 2 && (!strcmp(tok[1], "0") || !strcmp(tok[1], "1"))) {
+      int on = tok[1][0] == '1';
+      if (on == tightreg) { puts("bad-op"); goto next; }
+      if (on) rfbRegisterTightVNCFileTransferExtension(); else rfbUnregisterTightVNCFileTransferExtension();
+      tightreg = on;
       puts("ok");
     } else puts("bad-op");
   next:
